@@ -262,10 +262,45 @@ def c19_runs(tier):
     return r
 
 
+def work_runs(tier, hb=0):
+    q = tier == 'quick'
+    h = 'harness/work.c'
+    base = ['work.thread-started', 'work.thread-stopped']
+    p2 = 2 if q else 3
+    return [
+        mt_run('burst.max1.put-after', h, base + ['work.pool-released', 'work.loop-returned-and-everything-released'],
+               preempt=p2, W=2, max=1, put=1, hb=hb),
+        mt_run('burst.max2.put-after', h, base + ['work.two-items-in-parallel', 'work.pool-released'],
+               preempt=2, W=2 if q else 3, max=2, put=1, hb=hb),
+        mt_run('chain.put-in-completion', h, base + ['work.submitted-from-completion', 'work.pool-released'],
+               preempt=p2, W=2 if q else 3, max=1, put=2, chain=1, burst=1, hb=hb),
+        mt_run('idle-timeout.late-submit', h, base + ['work.submitted-after-idle-timeout', 'work.quiescent',
+                                                      'env.wait-timed-out'],
+               preempt=p2, W=2, max=1, put=0, late=1, burst=1, hb=hb),
+        mt_run('idle-timeout.coincides-with-submit', h, base + ['sched:simultaneous-timeouts', 'work.quiescent'],
+               preempt=p2, W=2, max=1, put=0, late=1, lateat=10, burst=1, hb=hb),
+        mt_run('continuation.put-late', h, base + ['work.continuation-from-worker', 'work.pool-released',
+                                                   'work.two-items-in-parallel'],
+               preempt=1 if q else 2, W=3, max=2, put=3, cont=1, burst=2, hb=hb),
+        mt_run('saturated.max1', h, base + ['work.quiescent'], preempt=p2, W=3, max=1, put=0, hb=hb),
+        mt_run('null-pool', h, ['work.loop-returned-and-everything-released'], preempt=0, W=2, nullpool=1, hb=hb),
+        mt_run('iv_thread', h, ['thread.joined-and-released'], preempt=2 if q else 3, threadtest=1, hb=hb),
+    ]
+
+
+def c12_runs(tier):
+    return work_runs(tier)
+
+
+def c13_runs(tier):
+    return [x for x in work_runs(tier) if x['name'] not in ('null-pool', 'saturated.max1')]
+
+
 def c14_runs(tier):
     r = []
     sig = [x for x in c10_runs(tier, hb=1) if x['name'] in ('two-threads', 'one-thread.I2')]
     sig += [x for x in c11_runs(tier, hb=1) if x['name'] == 'spawn+kill']
+    sig += [x for x in work_runs(tier, hb=1) if x['name'] != 'null-pool']
     for x in c08_runs(tier, hb=1) + c09_runs(tier, hb=1) + sig:
         x = dict(x)
         x['name'] = 'race.' + x['name']
@@ -420,13 +455,36 @@ CHECKS = {
                        'thorough': 'same, all four combinations'},
             'outside': 'several concurrent requests; pid reuse; a real exec',
             'assumptions': ENV_ASSUMPTIONS},
+    'C12': {'runs': c12_runs,
+            'explanation': 'C12: real iv_work.c + iv_thread_posix.c + iv_event.c + timers + loop; owner and worker '
+                           'threads through the pthread model (each worker a full iv_main over the kernel model); '
+                           'items submitted in bursts, from completions, as a continuation from a worker, and after / '
+                           'exactly at the 10 s idle timeout (virtual clock); oracles: work once in a non-owner thread, '
+                           'at most max_threads at a time, completion once in the owner after the work returned, every '
+                           'submitted item completed at quiescence / loop return; NULL pool runs both in the submitter.',
+            'bounds': {'quick': '2-3 items, max_threads 1-2, preemption bound 1-2, scheduling points = lock '
+                                'acquisition, reads/writes of pipes/eventfds, cross-thread epoll_ctl, waits, thread '
+                                'create/join/exit', 'thorough': 'bound 2-3, 3 items'},
+            'outside': 'more items/threads/preemptions; operations a thread performs on kernel objects only it can '
+                       'observe are not scheduling points (they commute with other threads)',
+            'assumptions': ENV_ASSUMPTIONS},
+    'C13': {'runs': c13_runs,
+            'explanation': 'C13: same runs, iv_work_pool_put right after a burst, from the first completion, or at '
+                           '+15 s (idle workers); the caller\'s struct is overwritten at once; oracles: submitted items '
+                           'complete, thread_start/thread_stop paired, every pthread joined, owner iv_main returns, '
+                           'pool/thread records/names freed (leak monitor), nothing touched after free. iv_thread: the '
+                           'created thread ends by return, after init+deinit, after init without deinit, by '
+                           'pthread_exit with and without init; the creator\'s iv_main returns only after the join.',
+            'bounds': {'quick': 'as C12', 'thorough': 'as C12'},
+            'outside': 'as C12; key-destructor order other than creation order',
+            'assumptions': ENV_ASSUMPTIONS},
     'C14': {'runs': c14_runs,
             'explanation': 'C14: happens-before (vector clock) race monitor over every load/store that library code '
                            'performs on globals and heap during the multi-threaded scenario programs of C08/C09 '
-                           'and the two-thread signal scenario of C10 (C12/C13 scenarios are added when built); sync edges: mutex/spin unlock->lock, '
+                           'the two-thread signal scenario of C10, the spawn+kill scenario of C11 and the C12/C13 pool scenarios; sync edges: mutex/spin unlock->lock, '
                            'thread create/join, write->read on pipes/eventfds, epoll_ctl->epoll_wait. The verdict on '
                            'a path is independent of the timing actually observed.',
-            'bounds': {'quick': 'the quick scenario programs of C08 and C09', 'thorough': 'their thorough versions'},
+            'bounds': {'quick': 'the quick scenario programs of C08, C09, C10 (two), C11 (one), C12/C13', 'thorough': 'their thorough versions'},
             'outside': 'stack objects shared between threads; weak memory; one-way feature flags are whitelisted: '
                        + ', '.join(RACE_WHITELIST),
             'assumptions': ENV_ASSUMPTIONS},
